@@ -21,7 +21,7 @@ CONFIG = {
                 quick=1000, thorough=20000, wrap_share=0.1,
                 lean_targets=["PulserModel", "Properties.C01"]),
     "C09": dict(wants=["any", "eom", "dmm", "local", "maxseq"], profiles=["mix", "eom", "target", "dmm"],
-                quick=450, thorough=15000, wrap_share=0.3, p_invalid=0.3,
+                quick=450, thorough=8000, wrap_share=0.3, p_invalid=0.3,
                 lean_targets=["PulserModel", "Properties.C09"]),
     "C13": dict(wants=["any", "eom", "dmm", "local", "xy"], profiles=["mix", "eom", "target", "dmm"],
                 quick=900, thorough=15000, wrap_share=0.1, p_invalid=0.3,
